@@ -1307,3 +1307,168 @@ pub fn c05_pad_structures() -> Phase {
         wall_cap_s: 0,
     }
 }
+
+/// A valid rendering of every size embedded in a frame of 1, 2 or 3 modules (light / dark / alternating) - a
+/// captured quiet zone or a crop taken too wide - and the same with the outer ring of the symbol cut away.
+pub fn framed_symbols(prop: &'static str, seed: u64) -> Phase {
+    let per_size: u64 = 3 * 3 + 1;
+    let total = N_SIZES as u64 * per_size;
+    let make = move |_ctx: &Ctx, i: u64| -> Trace {
+        let si = (i / per_size) as usize;
+        let r = i % per_size;
+        let s = &SIZES[si];
+        let mut faults = Vec::new();
+        if r < 9 {
+            faults.push(Fault::new("geo_frame", Op::GeoFrame { n: (r / 3 + 1) as u32, fill: (r % 3) as u32 }));
+        } else {
+            // the outer ring cut away
+            faults.push(Fault::new("geo_row_drop", Op::GeoRowDrop { r: (s.rows - 1) as u32 }));
+            faults.push(Fault::new("geo_row_drop", Op::GeoRowDrop { r: 0 }));
+            faults.push(Fault::new("geo_col_drop", Op::GeoColDrop { c: (s.cols - 1) as u32 }));
+            faults.push(Fault::new("geo_col_drop", Op::GeoColDrop { c: 0 }));
+        }
+        Trace { prop: prop.into(), producer: Producer::Raw { size: si, data: seeded_data(seed, si, r) }, faults }
+    };
+    Phase {
+        source: Source::Sweep { name: "sweep_framed_and_cropped_symbols".into(), prop: prop.into(), make: Box::new(make) },
+        runs: total,
+        wall_cap_s: 0,
+    }
+}
+
+/// Every pair of fixed-pattern modules that are neighbours in the pixel array - horizontally, vertically, diagonally,
+/// or consecutive in row-major order across the end of a row - flipped together, for every size: pairs that lie on
+/// DIFFERENT tracks (the two columns of an interior alignment bar, a clock module and the solid module after it,
+/// corners) as well as on one.
+pub fn c08_adjacent_fixed_pairs(seed: u64) -> Phase {
+    let mut table: Vec<(usize, u32, u32)> = Vec::new();
+    for s in SIZES.iter() {
+        let tpl = crate::catalogue::fixed_template(s);
+        let (h, w) = (s.rows as i64, s.cols as i64);
+        for r in 0..h {
+            for c in 0..w {
+                let a = (r * w + c) as usize;
+                if tpl[a].is_none() {
+                    continue;
+                }
+                // forward neighbours only (each unordered pair once)
+                for (dr, dc) in [(0i64, 1i64), (1, -1), (1, 0), (1, 1)] {
+                    let (rr, cc) = (r + dr, c + dc);
+                    if rr < 0 || rr >= h || cc < 0 || cc >= w {
+                        continue;
+                    }
+                    let b = (rr * w + cc) as usize;
+                    if tpl[b].is_some() {
+                        table.push((s.idx, a as u32, b as u32));
+                    }
+                }
+                // row-major successor across the end of the row
+                if c == w - 1 && r + 1 < h {
+                    let b = ((r + 1) * w) as usize;
+                    if tpl[b].is_some() {
+                        table.push((s.idx, a as u32, b as u32));
+                    }
+                }
+            }
+        }
+    }
+    let total = table.len() as u64;
+    let make = move |_ctx: &Ctx, i: u64| -> Trace {
+        let (si, a, b) = table[i as usize];
+        Trace {
+            prop: "C08".into(),
+            producer: Producer::Raw { size: si, data: seeded_data(seed, si, i % 3) },
+            faults: vec![Fault::new("fix_pair", Op::PxFlip { idx: a }), Fault::new("fix_pair", Op::PxFlip { idx: b })],
+        }
+    };
+    Phase {
+        source: Source::Sweep { name: "sweep_adjacent_fixed_module_pairs".into(), prop: "C08".into(), make: Box::new(make) },
+        runs: total,
+        wall_cap_s: 0,
+    }
+}
+
+/// Well-formed text in the Unicode encoding forms, then torn: boundary characters of every plane (and pairs of
+/// them) encoded as UTF-8, UTF-16BE/LE and UTF-32BE/LE, delivered whole, cut one byte short and with one byte
+/// damaged, under the designators that name those forms (ECI 25, 26, 33, 34, 35) and under two that do not (3, 27).
+pub fn c05_unicode_encodings() -> Phase {
+    const CPS: [u32; 22] = [
+        0x41, 0x7F, 0x80, 0xFF, 0x7FF, 0x800, 0xD7FF, 0xE000, 0xFEFF, 0xFFFD, 0xFFFE, 0xFFFF, 0x10000, 0x1F600, 0x1FFFF, 0x20000, 0x2FFFF,
+        0x30000, 0xE0000, 0xFFFFF, 0x100000, 0x10FFFF,
+    ];
+    const ECIS: [u8; 7] = [25, 26, 33, 34, 35, 3, 27];
+    const NFORM: u64 = 5;
+    const NVAR: u64 = 5;
+    let n_cp = CPS.len() as u64;
+    let total = n_cp * n_cp.min(6) * NFORM * ECIS.len() as u64 * NVAR;
+    let make = move |_ctx: &Ctx, i: u64| -> Trace {
+        let mut r = i;
+        let var = r % NVAR;
+        r /= NVAR;
+        let eci = ECIS[(r % ECIS.len() as u64) as usize];
+        r /= ECIS.len() as u64;
+        let form = r % NFORM;
+        r /= NFORM;
+        let second = r % n_cp.min(6);
+        r /= n_cp.min(6);
+        let first = CPS[(r % n_cp) as usize];
+        let mut cps = vec![first];
+        if second > 0 {
+            cps.push(CPS[((second * 4 + 1) % n_cp) as usize]);
+        }
+        let mut bytes: Vec<u8> = Vec::new();
+        for cp in cps {
+            let ch = char::from_u32(cp).unwrap_or('\u{fffd}');
+            match form {
+                0 => {
+                    let mut b = [0u8; 4];
+                    bytes.extend_from_slice(ch.encode_utf8(&mut b).as_bytes());
+                }
+                1 | 2 => {
+                    let mut b = [0u16; 2];
+                    for u in ch.encode_utf16(&mut b).iter() {
+                        if form == 1 {
+                            bytes.extend_from_slice(&u.to_be_bytes());
+                        } else {
+                            bytes.extend_from_slice(&u.to_le_bytes());
+                        }
+                    }
+                }
+                3 => bytes.extend_from_slice(&(ch as u32).to_be_bytes()),
+                _ => bytes.extend_from_slice(&(ch as u32).to_le_bytes()),
+            }
+        }
+        match var {
+            1 => {
+                bytes.pop();
+            }
+            2 => {
+                let l = bytes.len();
+                bytes[l / 2] ^= 0x80;
+            }
+            3 => {
+                bytes.insert(0, 0xFE);
+                bytes.insert(1, 0xFF);
+            }
+            4 => {
+                bytes.remove(0);
+            }
+            _ => {}
+        }
+        let mut data: Vec<u8> = vec![241, eci + 1];
+        for b in bytes {
+            if b < 128 {
+                data.push(b + 1);
+            } else {
+                data.push(235);
+                data.push(b - 127);
+            }
+        }
+        Trace { prop: "C05".into(), producer: Producer::Stream { data }, faults: vec![] }
+    };
+    Phase {
+        source: Source::Sweep { name: "sweep_unicode_encoding_forms_torn".into(), prop: "C05".into(), make: Box::new(make) },
+        runs: total,
+        wall_cap_s: 0,
+    }
+}
